@@ -2,6 +2,7 @@ package main
 
 import (
 	"fmt"
+	"go/constant"
 	"go/token"
 	"go/types"
 	"math"
@@ -539,5 +540,337 @@ func optionSemantics(w *World, r *Report, prop string) {
 		} else {
 			r.fail(rule, dkey, "internal/model/model.go", fmt.Sprintf("constants that can reach %s: %v (documented default %s)", f, sortedBoolKeys(fa.consts), want))
 		}
+	}
+}
+
+// ---- C12: option values are validated with the right polarity ----
+
+// isMembershipPredicate: f(slice, x) bool returns true exactly when some element of the slice equals x (the loop shape of a
+// hand-written `contains`), or is the standard library's slices.Contains.
+func isMembershipPredicate(f *ssa.Function) (bool, string) {
+	if f == nil {
+		return false, "not a static call"
+	}
+	if strings.HasPrefix(f.String(), "slices.Contains") {
+		return true, ""
+	}
+	if f.Blocks == nil || len(f.Params) != 2 {
+		return false, "not a two-parameter predicate"
+	}
+	if _, ok := f.Params[0].Type().Underlying().(*types.Slice); !ok {
+		return false, "first parameter is not a slice"
+	}
+	trueOnEq, nTrue, other := false, 0, true
+	forEachInstr(f, func(b *ssa.BasicBlock, ins ssa.Instruction) {
+		switch x := ins.(type) {
+		case *ssa.BinOp:
+			if x.Op != token.EQL && x.Op != token.NEQ {
+				return
+			}
+			if stripIdentity(x.X) != ssa.Value(f.Params[1]) && stripIdentity(x.Y) != ssa.Value(f.Params[1]) {
+				return
+			}
+			for _, ref := range *x.Referrers() {
+				iff, ok := ref.(*ssa.If)
+				if !ok {
+					continue
+				}
+				eq := 0
+				if x.Op == token.NEQ {
+					eq = 1
+				}
+				for _, i2 := range iff.Block().Succs[eq].Instrs {
+					if ret, ok := i2.(*ssa.Return); ok && len(ret.Results) == 1 {
+						if k, ok := ret.Results[0].(*ssa.Const); ok && k.Value != nil && k.Value.Kind() == constant.Bool && constant.BoolVal(k.Value) {
+							trueOnEq = true
+						}
+					}
+				}
+			}
+		case *ssa.Return:
+			if len(x.Results) != 1 {
+				other = false
+				return
+			}
+			k, ok := x.Results[0].(*ssa.Const)
+			if !ok || k.Value == nil || k.Value.Kind() != constant.Bool {
+				other = false
+				return
+			}
+			if constant.BoolVal(k.Value) {
+				nTrue++
+			}
+		}
+	})
+	if trueOnEq && nTrue == 1 && other {
+		return true, ""
+	}
+	return false, fmt.Sprintf("returns-true-on-equal=%v true-returns=%d constant-returns-only=%v", trueOnEq, nTrue, other)
+}
+
+// c12OptionValidation: where an option's value is checked against the table's allowed values, the diagnostic sits on the
+// "not a member" edge of a genuine membership predicate applied to (allowed values of that option, the given value).
+func c12OptionValidation(w *World, r *Report) {
+	const rule = "C12/option-values-validated"
+	n := 0
+	for _, fn := range parsePhaseFuncs(w) {
+		if fn.Pkg != w.Model {
+			continue
+		}
+		forEachInstr(fn, func(b *ssa.BasicBlock, ins ssa.Instruction) {
+			c, ok := ins.(*ssa.Call)
+			if !ok || len(c.Call.Args) != 2 {
+				return
+			}
+			if bt, ok := c.Type().Underlying().(*types.Basic); !ok || bt.Kind() != types.Bool {
+				return
+			}
+			// first argument: the allowed values looked up in a package-level map[string][]string
+			ex, ok := stripIdentity(c.Call.Args[0]).(*ssa.Extract)
+			var lk *ssa.Lookup
+			if ok {
+				lk, _ = ex.Tuple.(*ssa.Lookup)
+			} else {
+				lk, _ = stripIdentity(c.Call.Args[0]).(*ssa.Lookup)
+			}
+			if lk == nil || lk.X.Type().Underlying().String() != "map[string][]string" {
+				return
+			}
+			if _, isGlobal := valueRoot(lk.X).(*ssa.Global); !isGlobal {
+				return
+			}
+			n++
+			key := fmt.Sprintf("%s rejects exactly the values that are not in the option's list", fnKey(fn))
+			okPred, why := isMembershipPredicate(c.Call.StaticCallee())
+			if !okPred {
+				r.fail(rule, key, w.instrPos(ins), "the allowed values are tested with something that is not a membership predicate ("+why+")")
+				return
+			}
+			if _, isParam := stripIdentity(c.Call.Args[1]).(*ssa.Parameter); !isParam {
+				r.fail(rule, key, w.instrPos(ins), "the value tested against the list is not the option value handed in")
+				return
+			}
+			// the branch on the predicate: diagnostic on the false edge only
+			good, bad := false, false
+			for _, bb := range fn.Blocks {
+				cond := branchCond(bb)
+				if cond == nil {
+					continue
+				}
+				neg := false
+				cv := cond
+				for {
+					if u, ok := cv.(*ssa.UnOp); ok && u.Op == token.NOT {
+						neg = !neg
+						cv = u.X
+						continue
+					}
+					break
+				}
+				if cv != ssa.Value(c) {
+					continue
+				}
+				member, notMember := 0, 1
+				if neg {
+					member, notMember = 1, 0
+				}
+				for _, b3 := range fn.Blocks {
+					for _, i3 := range b3.Instrs {
+						if !isAddSyntaxError(i3) {
+							continue
+						}
+						if edgeDominates(bb, notMember, b3) {
+							good = true
+						}
+						if edgeDominates(bb, member, b3) {
+							bad = true
+						}
+					}
+				}
+			}
+			if good && !bad {
+				r.pass(rule, key, w.instrPos(ins), "")
+			} else {
+				r.fail(rule, key, w.instrPos(ins), fmt.Sprintf("diagnostic on the not-a-member edge: %v; diagnostic on the member edge: %v - a listed value is rejected or an unlisted one accepted", good, bad))
+			}
+		})
+	}
+	// inline form: a flag that becomes true when an element of the allowed list equals the value; diagnostic on the flag's false edge
+	for _, fn := range parsePhaseFuncs(w) {
+		if fn.Pkg != w.Model {
+			continue
+		}
+		forEachInstr(fn, func(b *ssa.BasicBlock, ins ssa.Instruction) {
+			bo, ok := ins.(*ssa.BinOp)
+			if !ok || (bo.Op != token.EQL && bo.Op != token.NEQ) {
+				return
+			}
+			var elem, val ssa.Value
+			for _, pair := range [][2]ssa.Value{{bo.X, bo.Y}, {bo.Y, bo.X}} {
+				if _, isParam := stripIdentity(pair[1]).(*ssa.Parameter); isParam {
+					elem, val = pair[0], pair[1]
+				}
+			}
+			if elem == nil || !isStringType(val.Type()) {
+				return
+			}
+			// elem: element of the slice looked up in the package-level map[string][]string
+			ld, ok := stripIdentity(elem).(*ssa.UnOp)
+			if !ok {
+				return
+			}
+			ia, ok := ld.X.(*ssa.IndexAddr)
+			if !ok {
+				return
+			}
+			var lk *ssa.Lookup
+			switch x := stripIdentity(ia.X).(type) {
+			case *ssa.Extract:
+				lk, _ = x.Tuple.(*ssa.Lookup)
+			case *ssa.Lookup:
+				lk = x
+			}
+			if lk == nil || lk.X.Type().Underlying().String() != "map[string][]string" {
+				return
+			}
+			if _, isGlobal := valueRoot(lk.X).(*ssa.Global); !isGlobal {
+				return
+			}
+			n++
+			key := fmt.Sprintf("%s rejects exactly the values that are not in the option's list", fnKey(fn))
+			// the flag: a boolean phi fed with `true` from the equal edge
+			eq := 0
+			if bo.Op == token.NEQ {
+				eq = 1
+			}
+			var iff *ssa.If
+			for _, ref := range *bo.Referrers() {
+				if i2, ok := ref.(*ssa.If); ok {
+					iff = i2
+				}
+			}
+			good, bad := false, false
+			if iff != nil {
+				eqBlk := iff.Block().Succs[eq]
+				for _, bb := range fn.Blocks {
+					cond := branchCond(bb)
+					if cond == nil {
+						continue
+					}
+					neg := false
+					cv := cond
+					for {
+						if u, ok := cv.(*ssa.UnOp); ok && u.Op == token.NOT {
+							neg = !neg
+							cv = u.X
+							continue
+						}
+						break
+					}
+					phi, ok := cv.(*ssa.Phi)
+					if !ok {
+						continue
+					}
+					fed := false
+					for i, e := range phi.Edges {
+						k, isConst := e.(*ssa.Const)
+						if isConst && k.Value != nil && k.Value.Kind() == constant.Bool && constant.BoolVal(k.Value) {
+							p := phi.Block().Preds[i]
+							if p == eqBlk || eqBlk.Dominates(p) {
+								fed = true
+							}
+						}
+					}
+					if !fed {
+						continue
+					}
+					member, notMember := 0, 1
+					if neg {
+						member, notMember = 1, 0
+					}
+					for _, b3 := range fn.Blocks {
+						for _, i3 := range b3.Instrs {
+							if !isAddSyntaxError(i3) {
+								continue
+							}
+							if edgeDominates(bb, notMember, b3) {
+								good = true
+							}
+							if edgeDominates(bb, member, b3) {
+								bad = true
+							}
+						}
+					}
+				}
+			}
+			if good && !bad {
+				r.pass(rule, key, w.instrPos(ins), "inline membership loop")
+			} else {
+				r.fail(rule, key, w.instrPos(ins), fmt.Sprintf("inline membership test: diagnostic on the not-a-member edge: %v; on the member edge: %v", good, bad))
+			}
+		})
+	}
+	if n == 0 {
+		r.fail(rule, "option value check found", "internal/model/model.go", "no test of an option value against the option table's allowed values found: every value is accepted")
+	}
+}
+
+// ---- C12: positions come from the first token of the construct ----
+
+// c12PositionSource: every line/column the parse phase records (diagnostics, model positions) is read from a construct's start token
+// or from a terminal's own symbol - never from its stop token, which lies on a later line when the construct spans lines.
+func c12PositionSource(w *World, r *Report) {
+	const rule = "C12/position-from-start-token"
+	n := 0
+	for _, fn := range parsePhaseFuncs(w) {
+		cnt := 0
+		forEachInstr(fn, func(b *ssa.BasicBlock, ins ssa.Instruction) {
+			call, ok := ins.(*ssa.Call)
+			if !ok || !call.Call.IsInvoke() {
+				return
+			}
+			name := call.Call.Method.Name()
+			if name != "GetLine" && name != "GetColumn" && name != "GetCharPositionInLine" {
+				return
+			}
+			// walk the receiver chain to the token accessor
+			v := call.Call.Value
+			src := ""
+			for i := 0; i < 6 && src == ""; i++ {
+				c2, ok := stripIdentity(v).(*ssa.Call)
+				if !ok {
+					break
+				}
+				m := ""
+				var recv ssa.Value
+				if c2.Call.IsInvoke() {
+					m, recv = c2.Call.Method.Name(), c2.Call.Value
+				} else if f := c2.Call.StaticCallee(); f != nil && len(c2.Call.Args) > 0 {
+					m, recv = f.Name(), c2.Call.Args[0]
+				}
+				switch m {
+				case "GetStart", "GetStop", "GetSymbol":
+					src = m
+				case "GetTokenSource":
+					v = recv
+				default:
+					i = 6
+				}
+			}
+			if src == "" {
+				return // a token handed in (listener callbacks, helper parameters): judged where it was obtained
+			}
+			n++
+			cnt++
+			key := fmt.Sprintf("%s position #%d is taken from the start of the construct", fnKey(fn), cnt)
+			if src == "GetStop" {
+				r.fail(rule, key, w.instrPos(ins), "the recorded line/column is that of the construct's LAST token: a declaration that spans lines is reported (and remembered) at the wrong line")
+			} else {
+				r.pass(rule, key, w.instrPos(ins), src+"()")
+			}
+		})
+	}
+	if n == 0 {
+		r.fail(rule, "positions found", "internal/parser/packet_dsl_parser.go", "the parse phase records no source position at all")
 	}
 }
